@@ -4,11 +4,12 @@ from ..qcheck import mk_case, run_cases
 from ..common import dec_val
 
 MODULE = "Genql.Properties.C04"
-LEAN_TARGETS = [MODULE]
+LEAN_TARGETS = [MODULE, "Genql.Properties.C04Model"]
 THEOREMS = ["Genql.C04." + t for t in [
     "catalogue_eq_groups", "catalog_flatten_perm", "catalog_member_key", "catalog_lookup_filter",
     "hash_inner_perm_textbook", "hash_left_perm_textbook", "flatMap_comm_perm", "nested_inner_perm_textbook",
-    "strategy_independent", "parallel_schedule_independent", "map_order_independent"]]
+    "strategy_independent", "parallel_schedule_independent", "map_order_independent",
+    "toCatalog_catalogue", "catLookup_pure", "pairAll_pure", "nullAll_pure", "hashJoinRun_pure", "hashPure_inner_eq"]]
 TRUSTED = ["Go map iteration order is an arbitrary permutation (results compared as multisets)",
            "SHA-256 of the key text is collision free", "sqlparser JoinType predicates (table copied in pylib/sqlgen.py)",
            "goroutine scheduling of the PARALLEL variants only permutes chunk order (mutex-protected append)"]
